@@ -12,7 +12,7 @@ MANIFEST = {
     "technique": "Rocq proof over the Factory/Resolve model + vm_compute correspondence on generated wiring scenarios",
 }
 
-PROFILES = [(Profile(p_runner=0.7, p_fault=0.0, n_procs=(0, 1), p_lazy=0.2), 400, 4000), (Profile(p_runner=0.7, p_fault=0.8, n_procs=(0, 1)), 200, 2000)]
+PROFILES = [(Profile(p_runner=0.7, p_fault=0.0, n_procs=(0, 1), p_lazy=0.2, n_bare=(0, 2)), 400, 4000), (Profile(p_runner=0.7, p_fault=0.8, n_procs=(0, 1)), 200, 2000)]
 
 RULE = 'runner sets of all ordering classes (ties, negatives), lazy runners, runners on cycles, each choice of failing runner; non-trivial = >= 2 runners or a failing runner'
 
